@@ -124,3 +124,7 @@ Definition py_pop_first {N} (l : list N) : option (N * list N) := match l with [
 Definition py_pop_last {N} (l : list N) : option (N * list N) := match rev l with [] => None | x :: r => Some (x, rev r) end.
 (* str(n) of an int *)
 Definition py_str_int (z : Z) : str := if (z <? 0)%Z then 45 :: print_nat (Z.to_nat (- z)) else print_nat (Z.to_nat z).
+(* os.path.basename (posix): what follows the last '/' *)
+Fixpoint basename_acc (acc s : str) : str :=
+  match s with [] => acc | c :: r => if Z.eqb c 47 then basename_acc [] r else basename_acc (acc ++ [c]) r end.
+Definition basename (s : str) : str := basename_acc [] s.
